@@ -126,9 +126,10 @@ func feature(evs []tev) string {
 
 // styles 0-2: see buildFile; style 3: style 0 read with the logging option on;
 // style 4: style 0 with a header that declares no track at all (the reader
-// takes the chunks as they come and stops at the end of the data).
+// takes the chunks as they come and stops at the end of the data); style 5:
+// the tempo track is the second chunk; style 6: likewise, header says format 2.
 func judgeMap(res uint16, evs []tev) {
-	for style := 0; style < 5; style++ {
+	for style := 0; style < 7; style++ {
 		if style > 0 && len(evs) == 0 {
 			break
 		}
@@ -150,7 +151,7 @@ func judgeMapStyle(res uint16, evs []tev, style int) {
 		ctx.Guard(false, "cannot build file: %v", err)
 		return
 	}
-	styleNote = map[int]string{3: ":read-with-logging", 4: ":header-declares-no-track"}[style]
+	styleNote = map[int]string{3: ":read-with-logging", 4: ":header-declares-no-track", 5: ":tempo-track-second", 6: ":format-2-tempo-track-second"}[style]
 	defer func() { styleNote = "" }()
 	var opts []smf.ReadOption
 	if style == 3 {
@@ -159,6 +160,16 @@ func judgeMapStyle(res uint16, evs []tev, style int) {
 	if style == 4 {
 		data = append([]byte(nil), data...)
 		data[10], data[11] = 0, 0
+	}
+	if style == 5 || style == 6 {
+		l0 := 8 + int(data[18])<<24 + int(data[19])<<16 + int(data[20])<<8 + int(data[21])
+		sw := append([]byte(nil), data[:14]...)
+		sw = append(sw, data[14+l0:]...)
+		sw = append(sw, data[14:14+l0]...)
+		if style == 6 {
+			sw[9] = 2
+		}
+		data = sw
 	}
 	var s *smf.SMF
 	c := engine.Catch(func() { s, err = smf.ReadFrom(bytes.NewReader(data), opts...) })
@@ -373,6 +384,40 @@ func judgeLight(res uint16, evs []tev, queries []int64, family string) {
 	}
 }
 
+// divisionZero: a header whose division word is 0 (not a valid resolution; the
+// library documents 0 as "960"): whatever the times are, asking for them must
+// not panic and they must not decrease.
+func divisionZero() {
+	for _, evs := range [][]tev{nil, {{0, 500000}}, {{480, 250000}}, {{1, 1}, {100000, 0xFFFFFF}}} {
+		data, err := buildFile(96, evs, 0)
+		if err != nil {
+			continue
+		}
+		data = append([]byte(nil), data...)
+		data[12], data[13] = 0, 0
+		ctx.Eval()
+		ctx.Add("division_zero_files", 1)
+		var prev int64 = -1
+		c := engine.Catch(func() {
+			s, err := smf.ReadFrom(bytes.NewReader(data))
+			if err != nil {
+				return
+			}
+			for _, q := range []int64{0, 1, 479, 480, 481, 100000, 1 << 20} {
+				t := s.TimeAt(q)
+				if t < prev {
+					report("timeat:decreasing:division-zero", 0, evs, q, fmt.Sprintf("TimeAt(%d)=%d below %d", q, t, prev))
+				}
+				prev = t
+			}
+			smf.ReadTracksFrom(bytes.NewReader(data)).Do(func(te smf.TrackEvent) {})
+		})
+		if c.Panicked {
+			report(c.Sig+":division-zero", 0, evs, -1, "a file whose header division is 0: "+c.Value)
+		}
+	}
+}
+
 // tempoValues: the tempo payload swept over the 24-bit range (thorough: every
 // value; quick: every 61st plus the neighbourhood of every power of two and of
 // the common tempi), as a single tempo event queried far out (an error of a
@@ -428,7 +473,11 @@ func main() {
 				p := e.([]interface{})
 				evs = append(evs, tev{uint32(p[0].(float64)), uint32(p[1].(float64))})
 			}
-			judgeMap(uint16(m["resolution"].(float64)), evs)
+			if m["resolution"].(float64) == 0 {
+				divisionZero()
+			} else {
+				judgeMap(uint16(m["resolution"].(float64)), evs)
+			}
 		} else {
 			inverse(0)
 		}
@@ -449,7 +498,7 @@ func main() {
 		cp.Check(ctx, "time-at", cc.TimeAt())
 	})
 	ctx.Jobs("maps", len(jobs), func(j int) { maps(jobs[j].r, jobs[j].f) })
-	ctx.Jobs("inverse", 8, func(j int) { inverse(j) })
+	ctx.Jobs("inverse", 8, func(j int) { inverse(j); divisionZero() })
 	ctx.Jobs("tempo-values", 16, func(j int) { tempoValues(j, 16) })
 	ctx.Sample(map[string]interface{}{"resolution": 480, "tempo_events(gap,us)": [][2]int{{480, 250000}, {0, 500001}, {1, 16777215}}, "queries": "0, every tempo tick +-2, 2^20, 2^31-1"})
 	ctx.Guard(ctx.NontrivialCount() > 1000, "too few multi-segment queries")
